@@ -88,7 +88,7 @@ def cases(scripts, seed, limit):
             elif how == "nt":
                 d, n = p * 3 + 1, p * 3
             elif how == "nr":
-                d, n = 12, p * 3
+                d, n = p, p         # (unscaled: the remaining() answers 0..3 then fall on both sides of the destination's length)
             elif how == "v":
                 d, n = rnd.choice([0, 2, 7, 1 << 20]), p
             out.append({"consumer": name, "script": sc, "n": n, "d": d, "model": s["consumer"], "model_outcome": s["model_outcome"]})
